@@ -672,9 +672,17 @@ class Exec:
       return lambda idx: c
     return lambda idx, fn=fn: fn(*[lift(i, "int") for i in idx])
 
-  def havoc_array(self, ref, why=""):
+  def havoc_array(self, ref, why="", guard=None):
+    """forget the content of an array. guard: the path condition under which the forgetting construct (a loop)
+    was reached at all -- on the other paths (the function had already returned) the content is unchanged"""
     gen = next(self.fresh_ctr)
-    self.st.arrs[ref.aid] = self._base_uf(ref.name, ref, gen)
+    fresh = self._base_uf(ref.name, ref, gen)
+    if guard is None or guard is True:
+      self.st.arrs[ref.aid] = fresh
+    elif guard is not False:
+      old = self.st.arrs[ref.aid]
+      g = zb(guard)
+      self.st.arrs[ref.aid] = lambda idx, fresh=fresh, old=old, g=g: ite(g, fresh(idx), old(idx))
     if why:
       self.notes.append(f"havoc {ref.name}: {why}")
 
